@@ -624,6 +624,11 @@ class ReadInterp(Interp):
                     return self.run_fn(res, vals)
                 except Unsupported:
                     pass
+            # arguments were evaluated (and their reads counted) exactly once
+            out_ty = fn.get("sig_out") or ""
+            if any(("::%s" % a["name"]) in out_ty and a["kind"] == "enum" for a in self.F.data["adts"]):
+                return PathVal(self.fresh("e"))
+            return Opaque("call %s" % res)
         # wrappers around one value (Arc::new, Bytes::from, TopicName::try_from, expect, map_err ...)
         if name in _WRAPPERS and args:
             v = self.eval_quiet(fr, args[0])
